@@ -5,6 +5,7 @@ Each configuration is a workload whose observed event is the exit status of
   cargo check --offline -p <crate> --no-default-features --features <set> --lib --examples
 run against /repo's working tree (target dirs outside /repo).  For the named-feature powersets a
 small probe binary is additionally built against that exact configuration and run."""
+import re
 import itertools, json, os, shutil, subprocess, sys, time, threading, queue
 
 ROOT = os.path.dirname(os.path.dirname(os.path.abspath(__file__)))
@@ -129,6 +130,34 @@ def release_cells():
         out.append(("nexrad-data", s))
     return out
 
+def doctest_cells():
+    """Configurations whose documentation examples are compiled too (`cargo test --doc`): a doc
+    example is code of the crate that a consumer's `cargo test` builds with the consumer's features;
+    an example that uses an item gated differently from the item it documents stops that build."""
+    out = []
+    for s in powerset(MODEL):
+        out.append(("nexrad-model", s))
+    for s in powerset(DECODE):
+        out.append(("nexrad-decode", s))
+    for s in powerset(DATA_NAMED):
+        out.append(("nexrad-data", s))
+    for o in DATA_OPT:
+        out.append(("nexrad-data", [o]))
+    out.append(("nexrad-data", DATA_NAMED + DATA_OPT))
+    return out
+
+def run_doctests(crate, feats, target):
+    cmd = ["cargo", "test", "--offline", "--doc", "--manifest-path", os.path.join(REPO, "Cargo.toml"), "-p", crate,
+           "--no-default-features", "--target-dir", target, "-q"]
+    if feats:
+        cmd += ["--features", ",".join(feats)]
+    t0 = time.time()
+    p = subprocess.run(cmd, capture_output=True, text=True, env=dict(os.environ, CARGO_NET_OFFLINE="true"))
+    out = p.stdout + p.stderr
+    # only a failure to *compile* is this property's business (an example that runs and fails is not)
+    broken = p.returncode != 0 and (re.search(r"error(\[E\d+\])?:", out) is not None or "could not compile" in out)
+    return (1 if broken else 0), out[-4000:], " ".join(cmd), time.time() - t0
+
 def run_cell(crate, feats, target, release=False):
     """Two observations per configuration:
     1. `--lib` alone — what a downstream consumer with exactly these features compiles.  (Checking
@@ -216,6 +245,22 @@ def main():
     threads = [threading.Thread(target=rel_worker, args=(t,)) for t in targets[:2]]
     for t in threads: t.start()
     for t in threads: t.join()
+    # third pass: documentation examples
+    doc = doctest_cells()
+    dq = queue.Queue()
+    for i, c in enumerate(doc):
+        dq.put((i, c))
+    doc_results = [None] * len(doc)
+    def doc_worker(target):
+        while True:
+            try:
+                i, (crate, feats) = dq.get_nowait()
+            except queue.Empty:
+                return
+            doc_results[i] = (crate, feats) + run_doctests(crate, feats, target)
+    threads = [threading.Thread(target=doc_worker, args=(t,)) for t in targets[:2]]
+    for t in threads: t.start()
+    for t in threads: t.join()
     probe_results = []
     for feats in PROBE_CONFIGS:
         probe_results.append((feats,) + run_probe(feats, targets[0]))
@@ -240,6 +285,10 @@ def main():
         if rc != 0:
             sig = f"{crate} features=[{','.join(feats)}] does not build in the release profile"
             (known_hits if sig in known else fresh).append((sig, err, cmd))
+    for (crate, feats, rc, err, cmd, _) in doc_results:
+        if rc != 0:
+            sig = f"{crate} features=[{','.join(feats)}] documentation examples do not build"
+            (known_hits if sig in known else fresh).append((sig, err, cmd))
     for feats, out, cmd in probe_fail:
         sig = f"probe features=[{','.join(feats)}] fails"
         (known_hits if sig in known else fresh).append((sig, out, cmd))
@@ -250,7 +299,8 @@ def main():
     evidence = {
         "property_id": "C20", "tier": tier, "seed": SEED, "level": "exploration",
         "coverage": {
-            "evaluations": len(results) + len(probe_results) + len(rel_results),
+            "evaluations": len(results) + len(probe_results) + len(rel_results) + len(doc_results),
+            "documentation_example_configurations": {"checked": len(doc_results), "built": sum(1 for r in doc_results if r[2] == 0)},
             "release_profile_configurations": {"checked": len(rel_results), "built": sum(1 for r in rel_results if r[2] == 0)},
             "distinct_nontrivial": distinct,
             "rule": "a case is one (crate, feature set) configuration checked with cargo check --no-default-features --features <set>, first `--lib` alone (the consumer's view; no dev-dependency feature unification), then `--examples`, against /repo's working tree, or one probe binary built and run against a named-feature configuration; trivial = empty feature set; distinct = distinct non-empty (crate, feature set) pairs; oracle = cargo's exit status / probe prints PROBE-OK",
@@ -285,7 +335,7 @@ def main():
         sys.exit(1)
     if len(results) < 20:
         print("INCONCLUSIVE: property=C20 observed too little"); sys.exit(2)
-    print(f"HELD: property=C20 on {len(results)} configurations (dev profile) + {len(rel_results)} in the release profile + {len(probe_results)} probe runs")
+    print(f"HELD: property=C20 on {len(results)} configurations (dev profile) + {len(rel_results)} in the release profile + {len(doc_results)} with documentation examples + {len(probe_results)} probe runs")
     sys.exit(0)
 
 if __name__ == "__main__":
